@@ -5,6 +5,7 @@ import (
 	"errors"
 	"fmt"
 	"io"
+	"math"
 	"net"
 	"strconv"
 	"strings"
@@ -112,6 +113,10 @@ func toBytes(f net.Addr, fwdType int) []byte {
 		return nil
 	}
 
+	if len(addrStr) > math.MaxUint16 {
+		logrus.Error("Address too long")
+		return nil
+	}
 	addrLen := make([]byte, 2)
 	binary.BigEndian.PutUint16(addrLen, uint16(len(addrStr)))
 
